@@ -1,0 +1,13 @@
+//go:build verif
+
+// Contracts for package rsyncchecksum, checked by /verif/govc. Comments only.
+
+package rsyncchecksum
+
+// The -c comparison value: MD4 (unseeded) of the file's content as read
+// through the root.
+//@ func rsyncchecksum.RootChecksum
+//@   modifies ghost.acc, ghost.objClock, rsyncwire.CountingReader.BytesRead, rsyncwire.CountingWriter.BytesWritten
+//@   allows[C05,C04] fsread(h) if h == root
+//@   allows[C10] fsread(h)
+//@   ensures [sum-of-file] err == nil ==> bid(result) == rootSum(root, fn)
